@@ -102,6 +102,8 @@ structure St where
   /-- PLS: the values `only_2D` and `eta` had when `set_up` prepared the anatomical gradients and their norm -/
   suOnly2d : Bool := false
   suEta : Hex := default
+  /-- `weights_set_by_user` -/
+  wUser : Bool := false
 
 def joinS (l : List String) : String := " ".intercalate l
 
@@ -300,11 +302,11 @@ def St.toObj (s : St) : NbPrior Float :=
   let wArr := arrF s.w
   let kArr := s.kappa.map arrF
   { kind := s.kind, only2D := s.only2d, pf := s.pf.toFloat, gamma := s.gamma.toFloat, eps := s.eps.toFloat, scalar := s.scalar.toFloat,
-    wb := s.wb, w := mkImg 0 s.wb wArr, kappa := kArr.map fun a => mkImg 0 s.b a }
+    wb := s.wb, w := mkImg 0 s.wb wArr, kappa := kArr.map fun a => mkImg 0 s.b a, wUser := s.wUser }
 
 /-- write the members the model object may have changed back into the state -/
 def St.ofObj (s : St) (o : NbPrior Float) (weightsChanged : Bool) : St :=
-  let s := { s with kind := o.kind, only2d := o.only2D, wb := o.wb }
+  let s := { s with kind := o.kind, only2d := o.only2D, wb := o.wb, wUser := o.wUser }
   if weightsChanged then { s with w := ((voxels o.wb).map fun (z, y, x) => floatToHex (o.w z y x)).toArray } else s
 
 def dfltF (sz sy sx : Float) : Img Float := defaultWeights (K := Float) Float.ofInt sz sy sx
@@ -350,7 +352,7 @@ def stepObj (s : St) (toks : List String) : Option (St × String) :=
     let o := NbPrior.ctor (K := Float) k (o2 == "1") 0 0 0 0
     -- PLSPrior(only_2D, pf): set_defaults() gives alpha = eta = 1, no kappa, no anatomical image
     some ({ s with kind := k, only2d := o.only2D, pf := parseHex pf, gamma := parseHex gamma, eps := parseHex eps, scalar := parseHex scalar,
-                   alpha := hexOfNat 1, eta := hexOfNat 1, wb := o.wb, w := #[], kappa := none, anat := #[],
+                   alpha := hexOfNat 1, eta := hexOfNat 1, wb := o.wb, w := #[], wUser := o.wUser, kappa := none, anat := #[],
                    suOnly2d := o.only2D, suEta := hexOfNat 1 }, "ok")
   | "oparse" :: kind :: pf :: o2 :: gamma :: eps :: scalar :: rest =>
     match parseNested rest with
@@ -370,7 +372,7 @@ def stepObj (s : St) (toks : List String) : Option (St × String) :=
   | "osetw" :: z0 :: z1 :: y0 :: y1 :: x0 :: x1 :: vals =>
     let wb : Box := ⟨I z0, I z1, I y0, I y1, I x0, I x1⟩
     let o := (s.toObj).setWeights wb (fun _ _ _ => 0)
-    some ({ s with wb := o.wb, w := (vals.map parseHex).toArray }, "ok")
+    some ({ s with wb := o.wb, wUser := o.wUser, w := (vals.map parseHex).toArray }, "ok")
   | ["oset", what, v] =>
     match what with
     | "pf" => some ({ s with pf := parseHex v }, "ok")
@@ -382,7 +384,7 @@ def stepObj (s : St) (toks : List String) : Option (St × String) :=
     | "only2d" => some ({ s with only2d := v == "1" }, "ok")
     | _ => some (s, "bad-op")
   | ["osetup"] =>
-    -- NbPrior.setUp: nothing changes (in particular not the weights); PLS: the anatomical data are prepared now
+    -- NbPrior.setUp: weights that were not supplied by the user are emptied; PLS: the anatomical data are prepared now
     let o := (s.toObj).setUp
     some ({ (s.ofObj o false) with suOnly2d := s.only2d, suEta := s.eta }, "ok")
   | "ocall" :: vz :: vy :: vx :: fn =>
